@@ -13,6 +13,7 @@ import (
 	"fmt"
 	"net"
 	"os"
+	"runtime"
 	"sync"
 	"sync/atomic"
 	"time"
@@ -43,11 +44,14 @@ type opIn struct {
 	Arg int    `json:"arg"`
 }
 type caseIn struct {
-	Kind   string `json:"kind"` // tl | race | inflight
-	Cfg    cfgIn  `json:"cfg"`
-	Ops    []opIn `json:"ops"`
-	Which  string `json:"which"`  // race: ban | bl
-	Trials int    `json:"trials"` // race
+	Kind       string `json:"kind"` // tl | race | inflight
+	Cfg        cfgIn  `json:"cfg"`
+	Ops        []opIn `json:"ops"`
+	Which      string `json:"which"`      // race: ban | bl | perm | permfail | blperm
+	Trials     int    `json:"trials"`     // race
+	Entry      string `json:"entry"`      // burst: allowip | allowipburst | allowtunnel
+	Goroutines int    `json:"goroutines"` // burst
+	Keys       int    `json:"keys"`       // burst
 }
 type opOut struct {
 	R  int   `json:"r"`
@@ -63,11 +67,14 @@ type caseOut struct {
 	Lost          int `json:"lost"`            // trials in which the re-established entry was gone
 	PreNotExpired int `json:"pre_not_expired"` // trials skipped: the short entry had not expired yet (never expected)
 	// inflight
-	Parked         int  `json:"parked,omitempty"`
-	BannedRightAfter bool `json:"banned_right_after"`
-	PermanentKept  bool `json:"permanent_kept"`
-	BannedLater    bool `json:"banned_later"`
-	CloudCallsWhileBanned int `json:"cloud_calls_while_banned"`
+	Parked                int  `json:"parked,omitempty"`
+	BannedRightAfter      bool `json:"banned_right_after"`
+	PermanentKept         bool `json:"permanent_kept"`
+	BannedLater           bool `json:"banned_later"`
+	CloudCallsWhileBanned int  `json:"cloud_calls_while_banned"`
+	// burst: per fresh key, admissions among the concurrently released first requests and the time they took
+	Admitted  []int   `json:"admitted,omitempty"`
+	ElapsedNs []int64 `json:"elapsed_ns,omitempty"`
 }
 
 func ipStr(i int) string { return fmt.Sprintf("10.1.%d.%d", (i>>8)&255, i&255) }
@@ -81,16 +88,16 @@ type fakeConn struct {
 	challenge string
 }
 
-func (c *fakeConn) GetRemoteAddr() net.Addr        { return c.addr }
-func (c *fakeConn) GetConnID() string              { return "verif-conn" }
-func (c *fakeConn) GetProtocol() string            { return "tcp" }
-func (c *fakeConn) GetClientID() int64             { return c.clientID }
-func (c *fakeConn) SetClientID(id int64)           { c.clientID = id }
-func (c *fakeConn) SetAuthenticated(b bool)        { c.authed = b }
-func (c *fakeConn) IsAuthenticated() bool          { return c.authed }
-func (c *fakeConn) SetPendingChallenge(s string)   { c.challenge = s }
-func (c *fakeConn) GetPendingChallenge() string    { return c.challenge }
-func (c *fakeConn) ClearPendingChallenge()         { c.challenge = "" }
+func (c *fakeConn) GetRemoteAddr() net.Addr      { return c.addr }
+func (c *fakeConn) GetConnID() string            { return "verif-conn" }
+func (c *fakeConn) GetProtocol() string          { return "tcp" }
+func (c *fakeConn) GetClientID() int64           { return c.clientID }
+func (c *fakeConn) SetClientID(id int64)         { c.clientID = id }
+func (c *fakeConn) SetAuthenticated(b bool)      { c.authed = b }
+func (c *fakeConn) IsAuthenticated() bool        { return c.authed }
+func (c *fakeConn) SetPendingChallenge(s string) { c.challenge = s }
+func (c *fakeConn) GetPendingChallenge() string  { return c.challenge }
+func (c *fakeConn) ClearPendingChallenge()       { c.challenge = "" }
 
 type fakeCloud struct {
 	managers.CloudControlAPI
@@ -250,26 +257,40 @@ func runRace(c *caseIn) *caseOut {
 	out := &caseOut{Kind: "race", Trials: c.Trials}
 	for i := 0; i < c.Trials; i++ {
 		ip := ipStr(1000 + i)
-		if c.Which == "bl" {
+		switch c.Which {
+		case "bl", "blperm":
 			must(g.m.AddToBlacklist(ip, 3*time.Millisecond, "short", "admin"))
 			time.Sleep(8 * time.Millisecond)
 			if ok, _ := g.m.IsAllowed(ip); !ok {
 				out.PreNotExpired++
 				continue
 			}
-			must(g.m.AddToBlacklist(ip, time.Hour, "re-listed", "admin"))
+			if c.Which == "bl" {
+				must(g.m.AddToBlacklist(ip, time.Hour, "re-listed", "admin"))
+			} else {
+				must(g.m.AddToBlacklist(ip, 0, "listed for good", "admin"))
+			}
 			time.Sleep(5 * time.Millisecond)
 			if ok, _ := g.m.IsAllowed(ip); ok {
 				out.Lost++
 			}
-		} else {
+		default:
 			g.p.BanIP(ip, 3*time.Millisecond, "short")
 			time.Sleep(8 * time.Millisecond)
 			if b, _ := g.p.IsBanned(ip); b {
 				out.PreNotExpired++
 				continue
 			}
-			g.p.BanIP(ip, time.Hour, "re-banned")
+			switch c.Which {
+			case "perm": // manual permanent ban right after the query that scheduled the lazy unban
+				g.p.BanIP(ip, 0, "banned for good")
+			case "permfail": // the admitted attempts fail up to PermanentBanAt
+				for k := 0; k < 20; k++ {
+					g.p.RecordFailure(ip)
+				}
+			default:
+				g.p.BanIP(ip, time.Hour, "re-banned")
+			}
 			time.Sleep(5 * time.Millisecond)
 			if b, _ := g.p.IsBanned(ip); !b {
 				out.Lost++
@@ -317,6 +338,57 @@ func runInflight(c *caseIn) *caseOut {
 	return out
 }
 
+// the FIRST requests of an address released together: they must all draw on one bucket
+func runBurst(c *caseIn) *caseOut {
+	ctx, cancel := context.WithCancel(context.Background())
+	defer cancel()
+	rc := &security.RateLimitConfig{Rate: c.Cfg.Rate, Burst: c.Cfg.Burst, TTL: time.Duration(c.Cfg.TTLMs) * time.Millisecond}
+	rc2 := *rc
+	r := security.NewRateLimiter(rc, &rc2, ctx)
+	out := &caseOut{Kind: "burst"}
+	for k := 0; k < c.Keys; k++ {
+		key := ipStr(3000 + k)
+		// spin barrier: the goroutines are running (not parked) when released, so their first calls overlap
+		var ready, done sync.WaitGroup
+		var start int32
+		var admitted int64
+		n := c.Goroutines
+		if p := runtime.GOMAXPROCS(0); n > p {
+			n = p
+		}
+		for i := 0; i < n; i++ {
+			ready.Add(1)
+			done.Add(1)
+			go func() {
+				defer done.Done()
+				ready.Done()
+				for atomic.LoadInt32(&start) == 0 {
+				}
+				ok := false
+				switch c.Entry {
+				case "allowipburst":
+					ok = r.AllowIPBurst(key, 1)
+				case "allowtunnel":
+					ok = r.AllowTunnel(key, 1)
+				default:
+					ok = r.AllowIP(key)
+				}
+				if ok {
+					atomic.AddInt64(&admitted, 1)
+				}
+			}()
+		}
+		ready.Wait()
+		time.Sleep(200 * time.Microsecond) // let the last ones reach the spin loop
+		t0 := time.Now()
+		atomic.StoreInt32(&start, 1)
+		done.Wait()
+		out.ElapsedNs = append(out.ElapsedNs, int64(time.Since(t0)))
+		out.Admitted = append(out.Admitted, int(admitted))
+	}
+	return out
+}
+
 func runCase(raw []byte) *caseOut {
 	var c caseIn
 	must(json.Unmarshal(raw, &c))
@@ -327,6 +399,8 @@ func runCase(raw []byte) *caseOut {
 		return runRace(&c)
 	case "inflight":
 		return runInflight(&c)
+	case "burst":
+		return runBurst(&c)
 	}
 	panic("bad kind " + c.Kind)
 }
